@@ -65,6 +65,9 @@ class LawfulNum (N : Type) [NumOps N] : Prop where
   cmp_eq_iff : ∀ a b : N, NumOps.cmp a b = .eq ↔ a = b
   toInt_ofInt : ∀ i : Int, NumOps.toInt? (NumOps.ofInt i : N) = some i
   ofInt_inj : ∀ i j : Int, (NumOps.ofInt i : N) = NumOps.ofInt j → i = j
+  /-- integers are not NaN and are their own floor (so they index arrays exactly) -/
+  isNan_ofInt : ∀ i : Int, NumOps.isNan (NumOps.ofInt i : N) = false
+  floor_ofInt : ∀ i : Int, NumOps.math "floor" (NumOps.ofInt i : N) = some (NumOps.ofInt i)
 
 namespace JV
 variable {N : Type}
